@@ -7359,10 +7359,15 @@ class TensorDictBase(MutableMapping):
             )
             if is_compiling():
                 key_to_index = {key: i for i, key in enumerate(keys)}
-                return [vals[key_to_index[key]] for key in sorting_keys]
+                new_vals = [vals[key_to_index[key]] for key in sorting_keys]
             else:
                 source = dict(zip(keys, vals))
-                return [source[key] for key in sorting_keys]
+                new_vals = [source[key] for key in sorting_keys]
+            if len(new_vals) < len(vals):
+                raise KeyError(
+                    f"Some keys were not found: {set(sorting_keys).symmetric_difference(keys)}."
+                )
+            return new_vals
 
     @cache  # noqa: B019
     def _items_list(
